@@ -105,3 +105,22 @@ Proof.
   destruct (has_id ideq id (g_map g)); cbn [fst g_sig]; [congruence|].
   destruct (Nat.leb_spec (g_thr g) (length (g_map g ++ [(id, s)]))); cbn [fst g_sig g_map]; [lia|congruence].
 Qed.
+
+(* (c) re-dealing.  In the model a dealer's pieces are a function of the dealer (its polynomial is fixed by
+   (miner secret, group hash)): a piece dealt again after a restart IS the first one, so "receivers keep the
+   first piece per dealer" (Node.v: duplicates refused) cannot mix polynomials and C13_node_keys covers
+   every re-delivery schedule.  If a restarted dealer dealt a FRESH polynomial instead, members served
+   before and after the restart would hold shares of different polynomials: over Z mod 7, threshold 2,
+   dealer 1 deals 3 + x first and 4 + 2x after its restart, dealer 2 deals 1 + 5x; the member with id 1 kept
+   the first piece, the members with ids 2 and 3 took the second: two threshold subsets recover different
+   values. *)
+Theorem redeal_fresh_polynomial_refuted :
+  let o := zq 7 in
+  let key p x := oadd o (eval_poly o p x) (eval_poly o [1; 5] x) in
+  let kA := key [3; 1] 1 in let kB := key [4; 2] 2 in let kC := key [4; 2] 3 in
+  recover o [1; 2] [kA; kB] <> recover o [2; 3] [kB; kC].
+Proof. vm_compute. discriminate. Qed.
+
+Lemma redeal_same_piece {T} (o : ops T) (x : T) (dealer : T * list T) :
+  forall first second, first = piece_for o x dealer -> second = piece_for o x dealer -> second = first.
+Proof. intros; subst; reflexivity. Qed.
